@@ -155,7 +155,19 @@ pub struct Obs {
 }
 
 pub fn observe(case: &Case, shp: &[u8], shx: &[u8]) -> Result<Obs, String> {
-    let mut r = ShapeReader::with_shx(Dev::quiet(shp.to_vec()), Dev::quiet(shx.to_vec())).map_err(|e| err_kind(&e))?;
+    observe_chunked(case, shp, shx, 0)
+}
+
+/// `chunk` > 0: both sources return at most that many bytes per read call
+pub fn observe_chunked(case: &Case, shp: &[u8], shx: &[u8], chunk: usize) -> Result<Obs, String> {
+    let dev = |b: &[u8]| {
+        let d = Dev::quiet(b.to_vec());
+        if chunk > 0 {
+            d.set_chunking(crate::dev::Chunking::Uniform(chunk));
+        }
+        d
+    };
+    let mut r = ShapeReader::with_shx(dev(shp), dev(shx)).map_err(|e| err_kind(&e))?;
     let count = r.shape_count().map_err(|e| err_kind(&e));
     let mut iter = vec![];
     let mut ended = false;
@@ -174,7 +186,7 @@ pub fn observe(case: &Case, shp: &[u8], shx: &[u8]) -> Result<Obs, String> {
             }
         }
     }
-    let mut r2 = ShapeReader::with_shx(Dev::quiet(shp.to_vec()), Dev::quiet(shx.to_vec())).map_err(|e| err_kind(&e))?;
+    let mut r2 = ShapeReader::with_shx(dev(shp), dev(shx)).map_err(|e| err_kind(&e))?;
     let nth = (0..case.n + 1).map(|i| r2.read_nth_shape(i).map(|x| x.map(|s| from_lib(&s)).map_err(|e| err_kind(&e)))).collect();
     Ok(Obs { count, iter, ended, nth })
 }
@@ -287,6 +299,20 @@ fn run_case(case: &Case, ctx: &mut Ctx) {
     for (sig, d) in judge(case, &recs, &obs) {
         ctx.violation(sig, || case.to_json(), || d);
     }
+    // the same file through sources that return fewer bytes than asked (as a buffered file does at a refill)
+    if case.nontrivial() {
+        for chunk in [1usize, 7] {
+            match catch(|| observe_chunked(case, &shp, &shx, chunk)) {
+                Ok(o) => {
+                    ctx.lib_calls += 4 + 2 * case.n as u64;
+                    for (sig, d) in judge(case, &recs, &o) {
+                        ctx.violation(format!("short-reads:{}", sig), || case.to_json(), || format!("sources returning <= {} bytes per read: {}", chunk, d));
+                    }
+                }
+                Err(p) => ctx.violation(format!("short-reads:{}", p.sig()), || case.to_json(), || p.msg.clone()),
+            }
+        }
+    }
 }
 
 fn selftest() -> (u64, u64) {
@@ -355,6 +381,63 @@ pub fn check(tier: Tier) -> i32 {
             tick();
         }
     });
+    // records stored far apart: byte offsets beyond 2^31 and 3 * 2^30 (legal: offsets are
+    // non-negative i32 word counts), on a sparse source; physical and permuted index order
+    let mut far = Ctx::new();
+    for ty in [Ty::Point, Ty::PolylineZ] {
+        let recs = records(ty, 3);
+        let enc: Vec<Vec<u8>> = recs.iter().map(encode_record).collect();
+        for offs in [[100u64, (1u64 << 31) + 65536, 3 * (1u64 << 30) + 512], [3 * (1u64 << 30) + 512, 100, (1u64 << 31) + 65536], [(1u64 << 32) - 4096, (1u64 << 30) - 2, 100]] {
+            let total: u64 = (1u64 << 32) - 2;
+            let mut hdr = codec::encode_header((total / 2) as i32, ty.code(), &[0.0; 8]);
+            hdr[24..28].copy_from_slice(&(((total / 2) as u32) as i32).to_be_bytes());
+            let mut chunks = vec![(0u64, hdr)];
+            let mut shx = codec::encode_header(50 + 12, ty.code(), &[0.0; 8]);
+            for i in 0..3 {
+                chunks.push((offs[i], enc[i].clone()));
+                shx.extend(((offs[i] / 2) as u32 as i32).to_be_bytes());
+                shx.extend((((enc[i].len() - 8) / 2) as i32).to_be_bytes());
+            }
+            let cj = json!({"far_offsets": offs, "ty": ty.name()});
+            let mut hh = Fnv::new();
+            hh.str(&cj.to_string());
+            let run = catch(|| -> Result<Vec<Result<MRead, String>>, String> {
+                let src = crate::sparse::Sparse { chunks: chunks.clone(), len: total, filler: 0xEE, pos: 0 };
+                let mut r = ShapeReader::with_shx(src, Dev::quiet(shx.clone())).map_err(|e| err_kind(&e))?;
+                let mut v: Vec<Result<MRead, String>> = r.iter_shapes().take(6).map(|x| x.map(|s| from_lib(&s)).map_err(|e| err_kind(&e))).collect();
+                for i in 0..3 {
+                    v.push(match r.read_nth_shape(i) {
+                        None => Err("None".to_string()),
+                        Some(x) => x.map(|s| from_lib(&s)).map_err(|e| err_kind(&e)),
+                    });
+                }
+                Ok(v)
+            });
+            far.lib_calls += 8;
+            far.case_done(hh.finish(), true, 7);
+            match run {
+                Ok(Ok(v)) => {
+                    let ok = v.len() == 6 && (0..6).all(|i| matches!(&v[i], Ok(m) if super::c03::cmp_record(&recs[i % 3], m).is_none()));
+                    if !ok {
+                        far.violation("far-offsets:wrong-or-missing-record", || cj.clone(), || format!("iteration then random access returned {:?}", v.iter().map(|x| x.as_ref().map(|_| "shape").map_err(|e| e.clone())).collect::<Vec<_>>()));
+                    }
+                }
+                Ok(Err(e)) => far.violation("far-offsets:open-failed", || cj.clone(), || e),
+                Err(p) => far.violation(format!("far-offsets:{}", p.sig()), || cj.clone(), || p.msg.clone()),
+            }
+        }
+    }
+    let mut agg = agg;
+    {
+        let extra = merge(vec![far]);
+        agg.evals += extra.evals;
+        agg.lib_calls += extra.lib_calls;
+        agg.distinct_cases += extra.distinct_cases;
+        agg.distinct_nontrivial += extra.distinct_nontrivial;
+        for (k, f) in extra.findings {
+            agg.findings.insert(k, f);
+        }
+    }
     let st = selftest();
     finish(
         RunInfo {
@@ -362,7 +445,7 @@ pub fn check(tier: Tier) -> i32 {
             tier,
             level: "model_checking",
             engine: "E2 enumerator over RefCodec-built .shp/.shx pairs (all permutations x all filler combinations), read by the real ShapeReader::with_shx",
-            rule: "types x n records of pairwise different size x every permutation of physical order against index order x every combination of fillers {none, 2, 8, 14 bytes, a complete valid decoy record} before / between / after x filler byte {0x00, 0xff}; header length covers the whole file; non-trivial = some filler or physical order != index order",
+            rule: "types x n records of pairwise different size x every permutation of physical order against index order x every combination of fillers {none, 2, 8, 14 bytes, a complete valid decoy record} before / between / after x filler byte {0x00, 0xff}; header length covers the whole file; every non-trivial case again through sources that return at most 1 resp. 7 bytes per read; plus records at byte offsets beyond 2^31 and 3*2^30 on a sparse source (physical and permuted index order); non-trivial = some filler or physical order != index order",
             bounds: json!({"types": types.iter().map(|t| t.name()).collect::<Vec<_>>(), "n": ns, "gap_kinds": 5, "cases": cases.len()}),
             exhaustive: true,
             assumptions: vec!["fillers of odd length are impossible (offsets are in 16-bit words)".into()],
